@@ -188,6 +188,7 @@ func pickBits(r *rand.Rand, set map[uint]bool, maxSet, nRand int) []uint {
 	for i := 0; i < nRand; i++ {
 		s = append(s, uint(r.Intn(ethtypes.BloomBitLength)))
 	}
+	s = append(s, 0, ethtypes.BloomBitLength-1)
 	sort.Slice(s, func(i, j int) bool { return s[i] < s[j] })
 	return s
 }
@@ -195,3 +196,14 @@ func pickBits(r *rand.Rand, set map[uint]bool, maxSet, nRand int) []uint {
 func decompress(v []byte) ([]byte, error) { return bitutil.DecompressBytes(v, secSize/8) }
 
 func joinLines(s []string) string { return "[" + strings.Join(s, ";\n  ") + "]" }
+
+// sparseBytes: index/value pairs of the non-zero bytes (for failure reports).
+func sparseBytes(b []byte) []byte {
+	var out []byte
+	for i, v := range b {
+		if v != 0 {
+			out = append(out, byte(i), v)
+		}
+	}
+	return out
+}
